@@ -267,6 +267,9 @@ package main
 //@ func remoteProxy.remoteClient property C19
 //@   ghost serr error = nil
 //@   ghost sres string = ""
+//@   # the bootstrap client (service discovery on the remote's API server, kept
+//@   # by the per-host poller) carries a placeholder, not the caller's token
+//@   calls arvadosclient.New#1: requires old(token) != "xxx" ==> $0.AuthToken != old(token)
 //@   calls auth.SaltToken#1: requires $0 == old(token) && $1 == remoteID
 //@   calls auth.SaltToken#1: set serr = $r1
 //@   calls auth.SaltToken#1: set sres = $r0
